@@ -205,6 +205,15 @@ pub fn families(prop: &str, tier: Tier) -> Vec<Family> {
                 ops: OpSet { next: true, peeks: vec![], adv: vec![], offsets: Offsets::None, set_modes: true, with_positions: true, positions: false, with_offset_ops: false },
                 describe: "WithPositions<FindMatches> driven with next/set_mode on every 11th transition table of 4x4 pattern lists; the scanners come from ScannerBuilder::build(), i.e. through the process-wide cache, one after the other in one process, and differ in nothing but their transitions".into(),
             });
+            // resets keep the mode: set_offset / with_offset to every boundary between the calls
+            f.push(Family {
+                stateless_depth: 0,
+                name: "mode-graphs-2 with resets".into(),
+                cfgs: mode_graphs(2, &lists[1..5], if q { 23 } else { 5 }),
+                inputs: inputs(&['a', 'b', 'x'], 3),
+                ops: OpSet { next: true, peeks: vec![], adv: vec![], offsets: Offsets::All, set_modes: true, with_positions: false, positions: false, with_offset_ops: true },
+                describe: "2 modes x 4 pattern lists x every 23rd (thorough: 5th) transition table; next / set_mode interleaved with set_offset and with_offset to every boundary (a reset keeps the current mode)".into(),
+            });
             // unusual numbers: token types at the u16/u32 borders in transitions, a mode without
             // patterns as a transition target, a transition to the last mode, equal token types in
             // all modes
@@ -225,7 +234,14 @@ pub fn families(prop: &str, tier: Tier) -> Vec<Family> {
                     ],
                 });
             }
-            f.push(Family { stateless_depth: 0, name: "unusual numbers".into(), cfgs: odd, inputs: inputs(&['a', 'b', 'x'], if q { 4 } else { 5 }), ops: ops.clone(), describe: "token types 255/256/65535/65536/u32::MAX in patterns and transitions, a mode without patterns as a target, self loops on the last mode".into() });
+            // modes that are equal in everything (name, patterns, transitions): mode indices still
+            // count every mode of the list
+            for (ta, tb) in [(2usize, 0usize), (1, 2), (2, 2)] {
+                let a = CMode { name: "A".into(), pats: vec![CPat::new("a", 0), CPat::new("b", 1)], transitions: vec![(0, ta), (1, tb)] };
+                odd.push(Cfg { modes: vec![a.clone(), CMode { name: "B".into(), pats: vec![CPat::new("[ab]", 2), CPat::new("x", 0)], transitions: vec![(0, 0), (2, 2)] }, a.clone()] });
+                odd.push(Cfg { modes: vec![a.clone(), a.clone(), CMode { name: "C".into(), pats: vec![CPat::new("a+", 2), CPat::new("b", 1)], transitions: vec![(1, 1), (2, 0)] }] });
+            }
+            f.push(Family { stateless_depth: 0, name: "unusual numbers".into(), cfgs: odd, inputs: inputs(&['a', 'b', 'x'], if q { 4 } else { 5 }), ops: ops.clone(), describe: "token types 255/256/65535/65536/u32::MAX in patterns and transitions, a mode without patterns as a target, self loops on the last mode; mode lists that contain one mode twice (equal name, patterns and transitions)".into() });
             // the patterns of the current mode include their lookaheads: modes that share token
             // types (and regexes) but differ in the lookahead
             f.push(Family { stateless_depth: 0, name: "lookahead modes".into(), cfgs: lookahead_mode_cfgs(), inputs: inputs(&['a', 'b', 'x'], if q { 4 } else { 5 }), ops: ops.clone(), describe: "modes with positive/negative lookaheads; the same token type (and regex) with another lookahead in another mode".into() });
@@ -480,6 +496,8 @@ pub fn run(prop: &'static str, tier: Tier) -> ! {
                 (_, Tier::Quick) => 3,
                 (_, Tier::Thorough) => 4,
             };
+        // the reset family of C06 has an alphabet of about a dozen operations: depth 2 there
+        let stateless_depth = if prop == "C06" && fam.ops.with_offset_ops { 2 } else { stateless_depth };
         let accs = par_for(n, 1, || Acc { samples: Samples::new(1), ..Default::default() }, |acc, i| {
             let cfg = &fam.cfgs[i];
             let spec = match cfg.to_spec() {
